@@ -68,12 +68,15 @@ let view_ops (nfds : int) (size_of : int -> int) : fop list =
   @ List.concat_map (fun k -> [Fstat (nat_of_int k); ReadAt (nat_of_int k, z_of_int (size_of k + 1), z_of_int 0)])
       (List.init nfds (fun k -> k))
 
+let full_view = (try Sys.getenv "VERIF_FIO_FULLVIEW" = "1" with Not_found -> false)
+let digest v = if full_view || String.length v <= 32 then v else Digest.to_hex (Digest.string v)
+
 let info_size = function S_Info i -> int_of_z i.si_size | _ -> 0
 
 let spec_view (st : fstate) : string =
   let nfds = List.length st.st_fds in
   let size_of k = info_size (snd (fspec_step st (Fstat (nat_of_int k)))) in
-  String.concat "," (List.map (fun o -> show_sres (snd (fspec_step st o))) (view_ops nfds size_of))
+  digest (String.concat "," (List.map (fun o -> show_sres (snd (fspec_step st o))) (view_ops nfds size_of)))
 
 let impl_step (w : world) (o : fop) : world * sres =
   let (w', r) = wstep w (impl_call o) in (w', fproj_res r)
@@ -81,7 +84,7 @@ let impl_step (w : world) (o : fop) : world * sres =
 let impl_view (w : world) : string =
   let nfds = List.length w.w_handles in
   let size_of k = info_size (snd (impl_step w (Fstat (nat_of_int k)))) in
-  String.concat "," (List.map (fun o -> show_sres (snd (impl_step w o))) (view_ops nfds size_of))
+  digest (String.concat "," (List.map (fun o -> show_sres (snd (impl_step w o))) (view_ops nfds size_of)))
 
 let orefa_istep (w : world) (o : fop) : world * sres =
   let (w', r) = orefa_step w o in (w', fproj_res r)
@@ -89,29 +92,50 @@ let orefa_istep (w : world) (o : fop) : world * sres =
 let show_ofinding = function OKf k -> show_finding k | OKfRenameKeepsLinkCount -> "OKfRenameKeepsLinkCount"
   | OKfRenameHardLinkAlias -> "OKfRenameHardLinkAlias"
   | OKfPathTruncatePriority -> "OKfPathTruncatePriority"
+  | OKfRenameSameNameMissing -> "OKfRenameSameNameMissing"
 
 let umask = 18
 
-let run_file (ops : string list) (kfmode : bool) : string =
+type mode = Full | Kf | Oproj
+
+(* the O projection of one step: does the implementation show what os.File shows? *)
+let proj_dev (r : string) (rs : string) (v : string) (vs : string) : string =
+  if r <> rs then Printf.sprintf "DEV:r:%s/%s" r rs
+  else if v <> vs then Printf.sprintf "DEV:v:%s/%s" v vs
+  else "eq"
+
+let run_file (ops : string list) (mode : mode) : string =
   let wm = ref (init_world_linux (n_of_int umask)) in
   let wo = ref (init_world_linux (n_of_int umask)) in
   let st = ref empty_state in
+  let cut_m = ref false and cut_o = ref false in
   let outs = ref [] in
   List.iter (fun os ->
     let o = parse_fop (split_ws os) in
-    if kfmode then begin
-      let km = match kf02 !st o with None -> "-" | Some k -> show_finding k in
-      let ko = match kf02_orefa !st o with None -> "-" | Some k -> show_ofinding k in
-      outs := (km ^ "," ^ ko) :: !outs;
-      st := fst (fspec_step !st o)
-    end else begin
-      let (wm', rm) = impl_step !wm o in
-      let (wo', ro) = orefa_istep !wo o in
-      let (st', rs) = fspec_step !st o in
-      wm := wm'; wo := wo'; st := st';
-      outs := (Printf.sprintf "m:%s o:%s s:%s vm:%s vo:%s vs:%s" (show_sres rm) (show_sres ro)
-                 (show_sres rs) (impl_view wm') (impl_view wo') (spec_view st')) :: !outs
-    end) ops;
+    let km = match kf02 !st o with None -> "-" | Some k -> show_finding k in
+    let ko = match kf02_orefa !st o with None -> "-" | Some k -> show_ofinding k in
+    match mode with
+    | Kf ->
+        outs := (km ^ "," ^ ko) :: !outs;
+        st := fst (fspec_step !st o)
+    | Full | Oproj ->
+        let (wm', rm) = impl_step !wm o in
+        let (wo', ro) = orefa_istep !wo o in
+        let (st', rs) = fspec_step !st o in
+        wm := wm'; wo := wo'; st := st';
+        let (rm, ro, rs) = (show_sres rm, show_sres ro, show_sres rs) in
+        let (vm, vo, vs) = (impl_view wm', impl_view wo', spec_view st') in
+        if mode = Full then
+          outs := (Printf.sprintf "m:%s o:%s s:%s vm:%s vo:%s vs:%s" rm ro rs vm vo vs) :: !outs
+        else begin
+          if km <> "-" then cut_m := true;
+          if ko <> "-" then cut_o := true;
+          (* before the first classified step the property demands equality; from there on the models say
+             what is seen *)
+          let pm = if !cut_m then proj_dev rm rs vm vs else "eq" in
+          let po = if !cut_o then proj_dev ro rs vo vs else "eq" in
+          outs := (Printf.sprintf "m=%s o=%s" pm po) :: !outs
+        end) ops;
   String.concat " | " (List.rev !outs)
 
 (* ---- directory handles ----------------------------------------------------------- *)
@@ -146,7 +170,9 @@ let canon (acc : string list Stdlib.ref) (n : int) (names : str list) (e : serr 
 
 let dirpath = str_of_string "/tmp/d"
 
-let run_dir (names : str list) (ops : string list) (kfmode : bool) : string =
+let run_dir (names : str list) (ops : string list) (mode : mode) : string =
+  let kfmode = (mode = Kf) in
+  let cut = ref false in
   (* bytewise order of the names (OCaml's order on strings) *)
   let listing = List.map str_of_string (List.sort compare (List.map string_of_str names)) in
   let w = ref (init_world_linux (n_of_int umask)) in
@@ -168,16 +194,19 @@ let run_dir (names : str list) (ops : string list) (kfmode : bool) : string =
         if kfmode then emit "-,-"
         else begin
           let s = show_sres (fproj_res r) in
-          emit (Printf.sprintf "m:%s o:%s s:H:%d cm:%s co:%s" s s (Array.length !specs - 1) s s)
+          let sp = Printf.sprintf "H:%d" (Array.length !specs - 1) in
+          if mode = Full then emit (Printf.sprintf "m:%s o:%s s:%s cm:%s co:%s" s s sp s s)
+          else (let p = if !cut then proj_dev s sp "" "" else "eq" in emit (Printf.sprintf "m=%s o=%s" p p))
         end
     | DOp (h, o) ->
-        if h >= Array.length !specs then emit (if kfmode then "-,-" else "m:BADINDEX o:BADINDEX s:BADINDEX cm:BADINDEX co:BADINDEX")
+        if h >= Array.length !specs then emit (if kfmode then "-,-" else if mode = Full then "m:BADINDEX o:BADINDEX s:BADINDEX cm:BADINDEX co:BADINDEX" else "m=eq o=eq")
         else begin
           let (d, g) = !specs.(h) in
           if kfmode then begin
             emit (match kfdir listing d g o with None -> "-,-" | Some k -> show_dfinding k ^ "," ^ show_dfinding k);
             !specs.(h) <- (fst (dir_step listing d o), dghost_step listing d g o)
           end else begin
+            (if kfdir listing d g o <> None then cut := true);
             let r = call (impl_dcall (nat_of_int h) o) in
             let (d', rs) = dir_step listing d o in
             !specs.(h) <- (d', dghost_step listing d g o);
@@ -194,12 +223,13 @@ let run_dir (names : str list) (ops : string list) (kfmode : bool) : string =
               | D_Int z -> Printf.sprintf "N:%d" (int_of_z z)
               | D_Ok -> "ok"
               | D_Err e -> "E:" ^ show_serr e in
-            emit (Printf.sprintf "m:%s o:%s s:%s cm:%s co:%s" exact exact sp cn cn)
+            if mode = Full then emit (Printf.sprintf "m:%s o:%s s:%s cm:%s co:%s" exact exact sp cn cn)
+            else (let p = if !cut then proj_dev cn sp "" "" else "eq" in emit (Printf.sprintf "m=%s o=%s" p p))
           end
         end) ops;
   String.concat " | " (List.rev !outs)
 
-let run kfmode () =
+let run (kfmode : mode) () =
   iter_lines (fun line ->
     match split_bar line with
     | hd :: ops ->
@@ -211,4 +241,4 @@ let run kfmode () =
          | _ -> print_endline "BADLINE")
     | _ -> print_endline "BADLINE")
 
-let () = Conv.register "fileio" (run false); Conv.register "fileio-kf" (run true)
+let () = Conv.register "fileio" (run Full); Conv.register "fileio-kf" (run Kf); Conv.register "fileio-o" (run Oproj)
